@@ -19,7 +19,8 @@
      [live x log v]: in the call log, some key k registered v and since then k was neither
      deleted nor registered again and — when x (exclusive) — nobody registered v again. *)
 From Coq Require Import List ZArith Bool Permutation.
-From GZ Require Import C13.Model C13.Proofs C13.ProofsB C13.ProofsC C13.ProofsD C13.ProofsE.
+From GZgen Require Import C13Consts.
+From GZ Require Import C13.Model C13.Proofs C13.ProofsB C13.ProofsC C13.ProofsD C13.ProofsE C13.GenProofs.
 Import ListNotations.
 Open Scope Z_scope.
 
@@ -99,19 +100,39 @@ Proof. exact subset_spec. Qed.
 Print Assumptions subset_all_when_small.
 
 (* The resolver (discovBuilder: a non-exclusive subscriber whose listener publishes
-   subset(Values(), 32)): after any history and whatever the shuffle, the published list
-   has no duplicates, contains only registered values, contains ALL registered values when
-   there are at most 32, and has exactly 32 entries otherwise. *)
+   subset(Values(), subsetSize)): after any history and whatever the shuffle, the published
+   list has no duplicates, contains only registered values, contains ALL registered values
+   when there are at most subsetSize, and has exactly subsetSize entries otherwise.
+   [gen_subsetSize] is re-extracted from zrpc/resolver/internal/resolver.go at every run
+   (coq/gen/C13Consts.v); the property text fixes it to 32. *)
 Theorem resolver_publishes_all_when_small : forall xs evs c sh,
   wf_run (init xs) evs -> In c (conts (run (init xs) evs)) -> cexcl c = false ->
   Permutation sh (clast c) ->
-  let pub := subset sh 32 in
+  let pub := subset sh gen_subsetSize in
   NoDup pub /\
   (forall v, In v pub -> registered (truth evs) v) /\
-  (Z.of_nat (length (c_view c)) <= 32 -> forall v, registered (truth evs) v -> In v pub) /\
-  (32 < Z.of_nat (length (c_view c)) -> Z.of_nat (length pub) = 32).
-Proof. exact resolver_publishes. Qed.
+  (Z.of_nat (length (c_view c)) <= gen_subsetSize -> forall v, registered (truth evs) v -> In v pub) /\
+  (gen_subsetSize < Z.of_nat (length (c_view c)) -> Z.of_nat (length pub) = gen_subsetSize).
+Proof. exact resolver_publishes_gen. Qed.
 Print Assumptions resolver_publishes_all_when_small.
+
+Theorem subset_size_is_32 : gen_subsetSize = 32.
+Proof. exact subsetSize_is_32. Qed.
+Print Assumptions subset_size_is_32.
+
+(* The getValues cache (dirty bit + snapshot): for every sequence of OnAdd / OnDelete calls,
+   with listener funcs that read Values() or not, and Values() read by anybody at any time
+   in between: what Values() returns through the cache is the freshly computed view. *)
+Theorem snapshot_is_current : forall x c, creach x c -> c_values c = c_view c.
+Proof. exact snapshot_current. Qed.
+Print Assumptions snapshot_is_current.
+
+(* ... in particular for every subscriber of the system after any event history; so all
+   theorems about [c_view] are theorems about Subscriber.Values(). *)
+Theorem subscriber_values_are_the_view : forall xs evs c,
+  In c (conts (run (init xs) evs)) -> c_values c = c_view c.
+Proof. exact sys_snapshot_current. Qed.
+Print Assumptions subscriber_values_are_the_view.
 
 (* The kube EventHandler, after any informer-ordered history of OnAdd / OnUpdate /
    OnDelete / Update about the selected Endpoints object ([kwf_run], see ProofsD.v):
@@ -182,7 +203,8 @@ Definition ex_kube : list kev :=
 
 Example ex_kube_wf : kwf_run [] ex_kube.
 Proof.
-  cbn. repeat split; try (intros ? ?; cbn in *; tauto); try tauto; try discriminate.
+  cbn. repeat split; try (intros ? ?; cbn in *; tauto); try tauto; try discriminate;
+    try (left; reflexivity); right; intros ? ?; cbn in *; tauto.
 Qed.
 
 Example ex_kube_obs :
